@@ -283,8 +283,22 @@ def ret_event(stats, sc, log, MLMCResults):
                 out["priceD"] = 0
             ref = MLMCResults(Nl=np.array([len(f) for f in fine]), sum_cost=np.zeros(nlev), all_pl_fine=fine,
                               all_pl_coarse=coarse)
-            flo = list(np.asarray(res.kurtosis, dtype=float)) + list(np.asarray(ref.kurtosis, dtype=float))
-            rk = ranks(flo, rel=1e-9)
+            # reference kurtosis of the corrections, written out independently of the repository's moment helpers (exact
+            # fractions): central fourth moment over max(1, variance)^2 - the engine's own definition, guard included
+            from fractions import Fraction
+
+            def kurt_ref(fs, cs):
+                dp = [Fraction(float(a)) - Fraction(float(b)) for a, b in zip(fs, cs)]
+                n = len(dp)
+                if n == 0:
+                    return float("nan")
+                mu = sum(dp) / n
+                m2 = sum((x - mu) ** 2 for x in dp) / n
+                m4 = sum((x - mu) ** 4 for x in dp) / n
+                return float(m4 / max(Fraction(1), m2) ** 2)
+            flo = list(np.asarray(res.kurtosis, dtype=float)) + [kurt_ref(f, c) for f, c in zip(fine, coarse)]
+            # (the engine forms the central moment from non-central ones: cancellation costs it digits, hence 1e-6)
+            rk = ranks(flo, rel=1e-6)
             out["kurt"], out["kurt_ref"] = rk[:nlev], rk[nlev:]
     else:
         # control variates: regression results are not integers; compare equality classes with the repository's
